@@ -409,7 +409,7 @@ func cmdClaim(args []string) int {
 	funcs, lemmas := propFuncs(db, *id)
 	work, _ := os.MkdirTemp("", "govc-claim-")
 	defer os.RemoveAll(work)
-	// claim only what discharges quickly (< 25% of the quick timeout) under two seeds
+	// claim only what discharges quickly (< 40% of the quick timeout, CPU time) under two seeds
 	rr1 := verifyFuncs(P, db, funcs, lemmas, filepath.Join(work, "a"), 10, 1)
 	rr2 := verifyFuncs(P, db, funcs, lemmas, filepath.Join(work, "b"), 10, 2)
 	for _, e := range rr1.errs {
@@ -420,7 +420,10 @@ func cmdClaim(args []string) int {
 	for _, n := range sortedKeys(rr1.aggs) {
 		a, b := rr1.aggs[n], rr2.aggs[n]
 		ok := func(x *aggObl) bool {
-			return x != nil && (x.Result == "discharged" || x.Result == "cover-ok") && x.Ms/int64(max(1, x.Instances-x.Trivial)) < 2500
+			if x != nil && (x.Result == "cover-ok" || x.Result == "cover-unknown") {
+				return true // covers only alarm when the precondition becomes unsatisfiable
+			}
+			return x != nil && x.Result == "discharged" && x.Ms/int64(max(1, x.Instances-x.Trivial)) < 4000
 		}
 		if ok(a) && ok(b) {
 			names = append(names, n)
